@@ -109,6 +109,10 @@ def clim_case(draw, tier="quick"):
     members = []
     for _ in range(k):
         members.append(draw(member(ts, [v for v in x], [v for v in z if not model.miss(v)])))
+    if len(members) >= 2 and draw(st.integers(0, 4)) == 0:
+        # the same member again later in the list ([A, B, A]): the *last* matching member decides
+        import copy as _copy
+        members.append(_copy.deepcopy(members[draw(st.integers(0, len(members) - 2))]))
     # move some values onto span bounds
     bounds = [b for m in members for sp in (m["vspan"], m.get("fspan")) if sp for b in sp]
     if bounds and n:
